@@ -7,7 +7,7 @@ From Coq Require Import List NArith ZArith Bool.
 From Falco Require Import Base.Bytes Gen.TokenTypes Model.ParseKinds Gen.ParserTables
   Model.ParseBase Model.Ast Model.ParseLit Model.ParseExpr Model.ParseStmt Model.ParseDecl Model.Yield
   Proofs.ParseTables Proofs.ParseExprYield Proofs.ParseExprTotal Proofs.ParsePratt Proofs.ParseRoundtrip
-  Proofs.ParseLitFacts.
+  Proofs.ParseLitFacts Proofs.ParseStmtYield Proofs.ParseDeclYield.
 Import ListNotations.
 Local Open Scope N_scope.
 
@@ -32,6 +32,31 @@ Theorem C02_parse_expr_yield :
   forall fok prec st e st',
     parse_expr fok prec st = POK (e, st') -> toks st = yexpr e ++ after st' /\ yexpr e <> [].
 Proof. exact parse_expr_yield. Qed.
+
+(* ... and so do statements and declarations (parse_yield, every node kind): ParseStatement starts
+   with NextToken, so a statement's tokens are what follows cur; Parse() returns behind the
+   declaration. *)
+Theorem C02_parse_stmt_yield :
+  forall fok n st s st', pstmt fok n st = POK (s, st') -> after st = ystmt s ++ after st'.
+Proof. exact (fun fok n => proj1 (yield_stmt_all fok n)). Qed.
+
+Theorem C02_parse_decl_yield :
+  forall fok st d st', parse_decl fok st = POK (d, st') -> toks st = ystmt d ++ toks st'.
+Proof. exact parse_decl_yield. Qed.
+
+(* whole programs: each declaration, statement and expression appears once, in source order, with
+   exactly the tokens written ([no_eof]: the stream does not contain an EOF token in the middle) *)
+Theorem C02_parse_yield :
+  forall fok ts v, parse_vcl fok ts = POK v -> no_eof ts = true -> ts = flat_map ystmt (vstmts v).
+Proof. exact parse_vcl_yield. Qed.
+
+(* snippets: the same, except that the snippet loop (which tests the token BEHIND cur for EOF)
+   drops at most one trailing token without a diagnostic; the Example in Proofs/ParseDeclYield.v
+   (`esi; foo`) shows that this happens *)
+Theorem C02_parse_snippet_yield :
+  forall fok ts v, parse_snippet fok ts = POK v -> no_eof ts = true ->
+    exists trailing, ts = flat_map ystmt (vstmts v) ++ trailing /\ (length trailing <= 1)%nat.
+Proof. exact parse_snippet_yield. Qed.
 
 (* Operators group as the documented table states, parentheses overriding: for EVERY canonical
    tree (any depth; all infix operators, explicit + and juxtaposition, prefix operators, grouping,
@@ -95,6 +120,10 @@ Proof. exact decode_escapes_plain. Qed.
 
 Print Assumptions C02_tables_are_documented.
 Print Assumptions C02_parse_expr_yield.
+Print Assumptions C02_parse_stmt_yield.
+Print Assumptions C02_parse_decl_yield.
+Print Assumptions C02_parse_yield.
+Print Assumptions C02_parse_snippet_yield.
 Print Assumptions C02_pratt_roundtrip.
 Print Assumptions C02_parse_expression_roundtrip.
 Print Assumptions C02_canonical_tree_unique.
